@@ -462,7 +462,7 @@ def r2_implicit(ctx):
         maynone = {path_of(st.targets[0]) for st in ast.walk(f) if isinstance(st, ast.Assign) and isinstance(st.value, ast.Call)
                    and A.call_target(st.value) == ('self', '_int')}
         maynone.discard(None)
-        if not maynone:
+        if not maynone and not any(A.call_target(c) == ('self', '_int') for c in A.calls_in(f)):
             continue
         f._qual, f._mod = q, ctx.mod('x12file')
         g = ctx.cfg(f)
@@ -478,10 +478,11 @@ def r2_implicit(ctx):
                     vals = list(x.right.elts) if isinstance(x.right, ast.Tuple) else [x.right]
                     args = list(zip(vals, specs))
                 for a, sp in args:
-                    if path_of(a) in maynone and sp and sp[-1:] in ('d', 'i', 'x', 'f'):
-                        ok = has(IN[nd.id], 'NotNone', path_of(a))
-                        yield Ob(km('(h) x12file:%s integer format of %s' % (q, path_of(a))), ok, ctx.floc(f, x),
-                                 '' if ok else '%s comes from _int() and is None for a non-numeric value: formatting it with :%s raises TypeError' % (path_of(a), sp))
+                    direct = isinstance(a, ast.Call) and A.call_target(a) == ('self', '_int')
+                    if (path_of(a) in maynone or direct) and sp and sp[-1:] in ('d', 'i', 'x', 'f'):
+                        ok = not direct and has(IN[nd.id], 'NotNone', path_of(a))
+                        yield Ob(km('(h) x12file:%s integer format of %s' % (q, path_of(a) or norm(a, 50))), ok, ctx.floc(f, x),
+                                 '' if ok else '%s comes from _int() and is None for a non-numeric value: formatting it with :%s raises TypeError' % (path_of(a) or norm(a, 50), sp))
     # (i) parameters that callers pass as None must not be dereferenced while None (abstract interpretation over usage x None)
     from .. import absint
     for qual, param in (('composite_if.is_valid', 'comp_data'), ('element_if.is_valid', 'elem')):
